@@ -386,7 +386,15 @@ def rule_word_indexes_in_range(ctx: Ctx, rep: Report) -> None:
     rep.floor(rule, 1)
 
 
+def rule_single_pass_(ctx: Ctx, rep: Report) -> None:
+    """C13.single_pass: a parameter that may be a one-shot iterable is walked, or handed to a function that walks it, at most once per path (see sigcommon.rule_single_pass)."""
+    from rules.sigcommon import rule_single_pass
+    rule_single_pass(ctx, rep, "C13.single_pass", ('btclib.mnemonic', 'btclib.bip85'), 2)
+
+
 RULES = [
+    ("C13.single_pass", rule_single_pass_),
+
     ("C13.word_indexes_in_range", rule_word_indexes_in_range),
 
     ("C13.electrum_normalize_order", rule_electrum_normalize_order),
